@@ -232,7 +232,7 @@ Inductive op :=
 | GetBal (a : N) | GetNonce (a : N) | GetCode (a : N) | GetSt (a : N) (k : bytes)
 | GetCommitted (a : N) (k : bytes)
 | Query (a : N) (p : bytes)
-| SetBal (a : N) (z : Z) | SetNonce (a : N) (n : N) | SetCode (a : N) (c : val)
+| SetBal (a : N) (z : Z) | AddBal (a : N) (z : Z) | SetNonce (a : N) (n : N) | SetCode (a : N) (c : val)
 | SetSt (a : N) (k : bytes) (v : val) | AddSt (a : N) (k : bytes) (v : val)
 | Snap | Revert (id : N) | Finalise | Clear | Flush | Commit (h : N) | Rollback (h : N)
 | Version | Reopen | Evict (a : N) (layer : N) (k : bytes) | DbDump
@@ -288,6 +288,11 @@ Definition do_setbal (c : cfg) (m : st) (a : N) (z : Z) : st :=
   let m2 := chg_append c m1 o (ChBal a (obj_bal o)) in
   let d := copy_or_new (cur_acct o) in
   put_obj m2 a (set_dirty o (Some (mkAcct (ac_nonce d) z (ac_ch d)))).
+(** SimpleLedger.AddBalance: GetOrCreateAccount, nothing for a zero amount, else
+    SetBalance(GetBalance() + amount) on a fresh big.Int *)
+Definition do_addbal (c : cfg) (m : st) (a : N) (z : Z) : st :=
+  let '(m1, o) := get_obj m a in
+  if (z =? 0)%Z then m1 else do_setbal c m1 a (obj_bal o + z)%Z.
 Definition do_setnonce (c : cfg) (m : st) (a : N) (n : N) : st :=
   let '(m1, o) := get_obj m a in
   let m2 := chg_append c m1 o (ChNonce a (obj_nonce o)) in
@@ -652,6 +657,7 @@ Definition step (e : env) (c : cfg) (m : st) (o : op) : st * out :=
   | GetCommitted a k => let '(m1, s) := do_getcommitted m a k in (m1, OS s)
   | Query a p => do_query e c m a p
   | SetBal a z => (do_setbal c m a z, ONone)
+  | AddBal a z => (do_addbal c m a z, ONone)
   | SetNonce a n => (do_setnonce c m a n, ONone)
   | SetCode a code => (do_setcode e c m a code, ONone)
   | SetSt a k v => (do_setst c m a k v, ONone)
